@@ -404,7 +404,7 @@ def run(tier, seed, which="C11"):
                       "every history of %d operations over {register/update, deregister, mark unhealthy, mark healthy, refresh range} on 2 addresses; healthy / ephemeral / enabled and the update-tag bits for enabled and ephemeral symbolic (thorough: also gRPC origin, other-node origin, from_sync and the remaining tag bits); client ids from {'', c1, c2}",
                       ["new registration", "foreign removal refused"]))
     if which == "C13":
-        plans.append(("s13_expiry", "time", 3 if tier == "quick" else 4,
+        plans.append(("s13_expiry", "time", 4 if tier == "quick" else 5,
                       "every history of %d steps over {register/heartbeat at t, time_check at t} with t on the grid " + str(GRID) + ", health time-out %d, instance time-out %d; instance flags symbolic" % (H_TIMEOUT, O_TIMEOUT),
                       ["beating instance survives a tick", "silent instance marked unhealthy", "silent unhealthy instance removed"]))
     for name, mode, n, bound, need in plans:
@@ -430,13 +430,20 @@ def run(tier, seed, which="C11"):
         obligations.append(ob)
     if which == "C12":
         obligations.append(filter_obligation(prog))
+    actor_hist = []
+    if which in ("C11", "C12"):
+        from . import c11actor
+        ob = c11actor.obligation(tier, seed, "s11_2_actor_reverse_map" if which == "C11" else "s12_2_actor_disconnect")
+        actor_hist = ob.pop("_validate", [])
+        obligations.append(ob)
     import os
     extra = {"h_timeout": H_TIMEOUT, "o_timeout": O_TIMEOUT}
     if not os.environ.get("VERIF_NO_NATIVE"):
         for ob in obligations:
             ops = ob.pop("_ops", None)
             if ob.get("verdict") == "violation" and ops:
-                rr = native_histories(which, "c11", "violation", [{"ops": ops}], dict(extra, obligation=ob["harness"], model=ob.get("counterexample")), ob["message"])
+                rr = native_histories(which, "c11actor" if "actor" in ob["harness"] else "c11", "violation", [{"ops": ops}],
+                                      dict(extra, obligation=ob["harness"], model=ob.get("counterexample")), ob["message"])
                 ob["replay_path"] = rr["path"]
                 ob["replay"] = {"path": rr["path"], "outcome": rr["outcome"], "message": rr["message"]}
                 if rr["outcome"] != "reproduced":
@@ -455,6 +462,12 @@ def run(tier, seed, which="C11"):
             if val["outcome"] != "passed":
                 obligations.append({"engine": "smt", "harness": "s11_translator_validation", "verdict": "inconclusive", "queries": 0, "solver_s": 0,
                                     "message": "the real Service and the encoding disagree on a sampled history: %s" % val["message"]})
+        if actor_hist:
+            val = native_histories(which, "c11actor", "validate", actor_hist, extra)
+            info["translator_validation_actor"] = val
+            if val["outcome"] != "passed":
+                obligations.append({"engine": "smt", "harness": "s11_translator_validation_actor", "verdict": "inconclusive", "queries": 0, "solver_s": 0,
+                                    "message": "the real NamingActor and the encoding disagree on a sampled history: %s" % val["message"]})
     for ob in obligations:
         ob.pop("_ops", None)
         ob.pop("_validate", None)
